@@ -79,6 +79,19 @@ class State:
         return hash((self.facts, self.regions))
 
 
+def is_ptr_ct(ct):
+    """pointer type, top-level qualifiers ignored (char *const, const char *restrict)"""
+    t = (ct or '').strip()
+    changed = True
+    while changed:
+        changed = False
+        for q in ('const', '__restrict', 'restrict', 'volatile'):
+            if t.endswith(q):
+                t = t[:-len(q)].rstrip()
+                changed = True
+    return t.endswith('*')
+
+
 def is_int_type(ct):
     ct = (ct or '')
     return any(t in ct for t in ('int', 'long', 'short', 'char', 'size_t', 'unsigned', '_Bool')) and '*' not in ct and '[' not in ct
@@ -335,7 +348,7 @@ class BoundsAnalysis:
             return self.ret_summaries[key]
         self.ret_summaries[key] = None
         res = None
-        if t.internal and not t.cfg_error and (t.d.get('retCanon') or '').rstrip().endswith('*'):
+        if t.internal and not t.cfg_error and is_ptr_ct(t.d.get('retCanon')):
             A = _FuncAnalysis(self, t, ())
             A.collect_ret_states = []
             A.collect_ret_nodes = []
@@ -364,7 +377,7 @@ class BoundsAnalysis:
         """index of the argument whose string the returned pointer points into (it stays within
         [arg, end of arg's string]), for program functions where the analysis proves that"""
         name = call.get('callee')
-        if not name or not (call.get('ct') or '').rstrip().endswith('*'):
+        if not name or not is_ptr_ct(call.get('ct')):
             return None
         t = self.prog.func(name, func.tu)
         if t is None or t.cfg_error:
@@ -529,7 +542,7 @@ class _FuncAnalysis:
         if k == 'CallExpr' and n.get('callee') in ('strlen', '__builtin_strlen'):
             a = strip(n.ch[1])
             return Lin.sym(('strlen', self.strkey(a), render(a)))
-        if k == 'CallExpr' and (n.get('ct') or '').rstrip().endswith('*'):
+        if k == 'CallExpr' and is_ptr_ct(n.get('ct')):
             ident = self.top.ptr_identity(self.func, n)
             if ident is not None:
                 return self.lin(n.ch[1 + ident], st)
@@ -541,7 +554,7 @@ class _FuncAnalysis:
                 if a is None or b is None:
                     return None
                 la, lb = (n.ch[0].get('ct') or ''), (n.ch[1].get('ct') or '')
-                pa, pb = la.rstrip().endswith('*'), lb.rstrip().endswith('*')
+                pa, pb = is_ptr_ct(la), is_ptr_ct(lb)
                 if pa and not pb:
                     b = b.scale(self.elem_size(n.ch[0]))
                 elif pb and not pa and op == '+':
@@ -571,7 +584,7 @@ class _FuncAnalysis:
                 if a is None:
                     return None
                 if n.get('postfix'):
-                    step = self.elem_size(n.ch[0]) if (n.ch[0].get('ct') or '').rstrip().endswith('*') else 1
+                    step = self.elem_size(n.ch[0]) if is_ptr_ct(n.ch[0].get('ct')) else 1
                     return a - Lin.const(step) if n['op'] == '++' else a + Lin.const(step)
                 return a
             if n['op'] == '-':
@@ -668,7 +681,7 @@ class _FuncAnalysis:
             return None
         if k == 'BinaryOperator' and n['op'] in ('+', '-'):
             for c in n.ch:
-                if (c.get('ct') or '').rstrip().endswith('*') or (strip(c).get('ct') or '').rstrip().endswith(']'):
+                if is_ptr_ct(c.get('ct')) or (strip(c).get('ct') or '').rstrip().endswith(']'):
                     return self.region_of(c, st)
             return None
         if k == 'BinaryOperator' and n['op'] == '=':
@@ -888,7 +901,7 @@ class _FuncAnalysis:
         tmp = ('tmp', vid, ref['name'] + "'")
         ct = self.var_types.get(vid, '') or (node.get('ct') or '')
         r = strip(rhs)
-        is_ptr = ct.rstrip().endswith('*') or (r is not None and (r.get('ct') or '').rstrip().endswith('*'))
+        is_ptr = is_ptr_ct(ct) or (r is not None and is_ptr_ct(r.get('ct')))
 
         def ren(L):
             if L is None or sym not in L.t:
@@ -1007,6 +1020,12 @@ class _FuncAnalysis:
         if val is not None:
             v2 = ren(val)
             new_facts += [X - v2, v2 - X]
+        if is_ptr and r is not None and r.k == 'DeclRefExpr' and r['ref'].get('kind') in ('var', 'parm') and \
+                r['ref'].get('id') != vid and not (r.get('ct') or '').rstrip().endswith(']'):
+            # p = q: the two name the same string from here on
+            sl_new = Lin.sym(('strlen', ('decl', vid), ref['name']))
+            sl_old = Lin.sym(('strlen', ('decl', r['ref']['id']), r['ref']['name']))
+            new_facts += [sl_new - sl_old, sl_old - sl_new]
         # rename the old value, drop strlen(x), add, project
         pr_s = lambda q: q[0] == 'strlen' and q[1] == ('decl', vid)
         facts0 = self.project(self.saturate(st, pr_s), pr_s)
@@ -1122,7 +1141,7 @@ class _FuncAnalysis:
                         st = State(self.add(st.facts, *rf), st.regions)
                         r = tmp
                 if op in ('+=', '-=') and r is not None and sym not in r.t:
-                    if (l.get('ct') or '').rstrip().endswith('*'):
+                    if is_ptr_ct(l.get('ct')):
                         r = r.scale(self.elem_size(l))
                     delta = r if op == '+=' else -r
                     new = set()
@@ -1139,7 +1158,7 @@ class _FuncAnalysis:
             l = strip(e.ch[0])
             if l.k == 'DeclRefExpr' and l['ref']['kind'] in ('var', 'parm'):
                 sym = self.vsym(l['ref'])
-                step = self.elem_size(l) if (l.get('ct') or '').rstrip().endswith('*') else 1
+                step = self.elem_size(l) if is_ptr_ct(l.get('ct')) else 1
                 delta = Lin.const(step if e['op'] == '++' else -step)
                 new = set()
                 for f in st.facts:
@@ -1152,7 +1171,8 @@ class _FuncAnalysis:
             return self.store(st, e, l)
         if k == 'CallExpr':
             st = self.call(st, e)
-            if e.get('callee') in ('strspn', 'strcspn'):
+            if e.get('callee') in ('strspn', 'strcspn', 'snprintf', 'strftime', 'read', 'fread') or (
+                    e.get('callee') and not is_ptr_ct(e.get('ct')) and self.prog.func(e.get('callee'), self.func.tu) is not None):
                 # the span as a value inside a larger expression (p + strcspn(p, ..), buf[strcspn(buf, ..)]): the call's
                 # own symbol carries the result facts (it is evaluated anew on every visit: forget the previous ones)
                 sym = ('opaque', e.id)
